@@ -42,7 +42,12 @@ BisectOK(r) ==
          (r.min1 > 0 /\ r.min2 > 0) =>
             r.min2 - r.min1 <= Tolerance * (DepthLoop(r.n2) - DepthLoop(r.n1) + 1))
 
-RecOK(r) == CASE r.k = "run" -> RunOK(r) [] r.k = "bisect" -> BisectOK(r) [] r.k = "done" -> TRUE
+UnwindOK(r) ==
+  Chk("discarding a game of " \o ToString(r.n) \o " capture-free turns while a panic unwinds the owning thread aborted the process: "
+        \o r.status \o " (a drop during unwinding must follow the loop discipline too)",
+      r.survived = 1 \/ r.status = "exit3")
+
+RecOK(r) == CASE r.k = "unwind" -> UnwindOK(r) [] r.k = "run" -> RunOK(r) [] r.k = "bisect" -> BisectOK(r) [] r.k = "done" -> TRUE
 
 Init == l = 1 /\ TLCSet(1, 0)
 Next == l <= Len(Rec) /\ RecOK(Rec[l]) /\ l' = l + 1
